@@ -62,7 +62,10 @@ def _returns(fn: ast.AST) -> list[ast.Return]:
 
 
 def _simple_arg(e: ast.AST) -> bool:
-    return isinstance(e, (ast.Name, ast.Constant)) or attr_chain(e) is not None
+    if isinstance(e, (ast.Name, ast.Constant)) or attr_chain(e) is not None:
+        return True
+    # a bound method of the parent class: `super().keys`
+    return isinstance(e, ast.Attribute) and isinstance(e.value, ast.Call) and isinstance(e.value.func, ast.Name) and e.value.func.id == "super" and not e.value.args
 
 
 def _tailify(body: list[ast.stmt], deliver) -> Optional[list[ast.stmt]]:
@@ -97,8 +100,17 @@ def _tailify(body: list[ast.stmt], deliver) -> Optional[list[ast.stmt]]:
                 new_if = ast.copy_location(ast.If(test=st.test, body=b1 or [ast.Pass()], orelse=b2), st)
                 out.append(new_if)
                 return out
+            if isinstance(st, (ast.With, ast.AsyncWith)) and has_return(st.body) and _ends(st.body):
+                # `with lock: ...; return v`: the value is delivered inside the with block
+                inner = go(st.body)
+                if inner is None:
+                    return None
+                new_with = copy.copy(st)
+                new_with.body = inner or [ast.Pass()]
+                out.append(new_with)
+                return out
             if has_return([st]):
-                return None  # return inside a loop / try / with
+                return None  # return inside a loop / try
             out.append(st)
         out += deliver(None)
         return out
@@ -111,6 +123,8 @@ def _tailify(body: list[ast.stmt], deliver) -> Optional[list[ast.stmt]]:
             return True
         if isinstance(last, ast.If):
             return bool(last.orelse) and _ends(last.body) and _ends(last.orelse)
+        if isinstance(last, (ast.With, ast.AsyncWith)):
+            return _ends(last.body)
         return False
 
     return go(list(body))
@@ -122,6 +136,8 @@ def _block_ends(block) -> bool:
     last = block[-1]
     if isinstance(last, (ast.Return, ast.Raise, ast.Continue, ast.Break)):
         return True
+    if isinstance(last, (ast.With, ast.AsyncWith)):
+        return _block_ends(last.body)
     if isinstance(last, ast.If):
         return bool(last.orelse) and _block_ends(last.body) and _block_ends(last.orelse)
     return False
@@ -141,19 +157,23 @@ def _push_continuation(if_node: ast.If, rest: list[ast.stmt]) -> None:
             blk.extend(copy.deepcopy(rest))
 
 
-def _fold_const_tests(block: list[ast.stmt]) -> list[ast.stmt]:
+def _fold_const_tests(block: list[ast.stmt], _nonnone=None) -> list[ast.stmt]:
     """within one block: after ``x = None`` / ``x = <constant>`` fold a directly following
     ``if not x`` / ``if x`` / ``if x is None`` (nothing in between rebinding x)"""
     out: list[ast.stmt] = []
     known: dict[str, object] = {}
+    nonnone: set[str] = set(_nonnone or ())
     for st in block:
         for fld in ("body", "orelse"):
             sub = getattr(st, fld, None)
             if isinstance(st, ast.If) and isinstance(sub, list):
-                setattr(st, fld, _fold_const_tests(sub))
+                setattr(st, fld, _fold_const_tests(sub, nonnone))
         if isinstance(st, ast.If):
             t = st.test
             verdict = None
+            if isinstance(t, ast.Compare) and len(t.ops) == 1 and isinstance(t.left, ast.Name) and t.left.id in nonnone and t.left.id not in known and isinstance(t.comparators[0], ast.Constant) and t.comparators[0].value is None and isinstance(t.ops[0], (ast.Is, ast.IsNot)):
+                # an attribute of this name was read on the way here: it is not None
+                verdict = isinstance(t.ops[0], ast.IsNot)
             if isinstance(t, ast.Name) and t.id in known:
                 verdict = bool(known[t.id])
             elif isinstance(t, ast.UnaryOp) and isinstance(t.op, ast.Not) and isinstance(t.operand, ast.Name) and t.operand.id in known:
@@ -168,10 +188,23 @@ def _fold_const_tests(block: list[ast.stmt]) -> list[ast.stmt]:
                 continue
         if isinstance(st, ast.Assign) and len(st.targets) == 1 and isinstance(st.targets[0], ast.Name) and isinstance(st.value, ast.Constant):
             known[st.targets[0].id] = st.value.value
+            nonnone.discard(st.targets[0].id)
         else:
+            copied = None
+            if isinstance(st, ast.Assign) and len(st.targets) == 1 and isinstance(st.targets[0], ast.Name) and isinstance(st.value, ast.Name) and st.value.id in nonnone:
+                copied = st.targets[0].id
             for n in ast.walk(st):
                 if isinstance(n, ast.Name) and isinstance(n.ctx, (ast.Store, ast.Del)):
                     known.pop(n.id, None)
+                    nonnone.discard(n.id)
+            if copied:
+                nonnone.add(copied)
+        # `x.attr` evaluated unconditionally by this statement (its test, for an `if`): x is not None below
+        probe = st.test if isinstance(st, (ast.If, ast.While)) else st if not hasattr(st, "body") else None
+        if probe is not None:
+            for n in ast.walk(probe):
+                if isinstance(n, ast.Attribute) and isinstance(n.value, ast.Name) and isinstance(n.ctx, ast.Load) and n.value.id not in known:
+                    nonnone.add(n.value.id)
         out.append(st)
     return out
 
